@@ -335,7 +335,7 @@ LOADS = ["gettz_name", "gettz_second", "gettz_space", "gettz_colon",
          "gettz_env_colon", "gettz_localtime_abs", "gettz_localtime_rel",
          "gettz_localtime_colon", "tzfile_stream_forward_only",
          "tzfile_stream_read_only", "gettz_abs_blank", "tzfile_path_blank",
-         "tzfile_stream_offset"]
+         "tzfile_stream_offset", "gettz_blank_later"]
 
 
 def gen_loads(rng, n):
@@ -611,7 +611,13 @@ class Loader(object):
                    ("Area/ToRoot", "Zone", "hard")],
             # METADATA is optional in an archive
             metadata=b'{"tzversion": "sim"}'
-            if (len(data) + len(name)) % 3 else None, order=archive_order)
+            if (len(data) + len(name)) % 3 else None, order=archive_order,
+            # in some archives the zone is listed twice: an older version
+            # first, the current one appended later
+            stale={"Area/Zone": ZW.zone_bytes(ZW.simple_zone(13))}
+            if len(data) % 4 == 1 else None)
+        if len(data) % 4 == 1 and archive_order == "links_last":
+            ctx.probe("archive_member_listed_twice")
         if archive_order != "links_last":
             ctx.probe("archive_order." + archive_order)
         world.bundle = ZW.make_archive({"Bundle/Zone": data})
@@ -648,6 +654,15 @@ class Loader(object):
             return tz.gettz("Area/Two Words")
         if k == "gettz_colon":
             return tz.gettz(":Area/Zone")
+        if k == "gettz_blank_later":
+            # a name with a literal blank that exists, spelled so, only in
+            # the SECOND search directory -- next to an underscore namesake
+            # with other data (each directory is tried with the literal
+            # spelling first)
+            self.world.fs.add_file(ZW.ZI2 + "/Area/Blank Name", self.data)
+            self.world.fs.add_file(ZW.ZI2 + "/Area/Blank_Name",
+                                   ZW.zone_bytes(ZW.simple_zone(29)))
+            return tz.gettz("Area/Blank Name")
         if k == "gettz_abs":
             return tz.gettz(self.p1)
         if k in ("gettz_env", "gettz_env_colon"):
